@@ -437,6 +437,23 @@ package httpserver
 //@   requires r != nil
 //@   ensures [own_empty_value_request_and_recorder] result != nil && (*replacer)(result).emptyValue == emptyValue && (*replacer)(result).request == r && (*replacer)(result).responseRecorder == rr
 
+//@ unit log_roller frames=on props=C08 filter=`httpserver\.LogRoller\)\.GetLogWriter$`
+//@ // One roller per log file for the whole process: a configuration that names a log file another (running) configuration
+//@ // already writes to gets THAT roller, untouched - a load that is later rejected has changed nothing of it. Only a file
+//@ // nobody has opened yet gets a new roller with this configuration's settings. (frame checked: no field of an existing
+//@ // lumberjack.Logger is in `modifies`.)
+//@ invariant lumberjacks != nil
+//@ spec absPathOf(name string) string
+//@ spec absFails(name string) bool
+//@ extern path/filepath.Abs
+//@   ensures (result1 != nil) == absFails(path)
+//@   ensures result1 == nil ==> result0 == absPathOf(path)
+//@ func (LogRoller).GetLogWriter
+//@   modifies MV:map[string]io.Writer, MD:map[string]io.Writer
+//@   ensures [existing_roller_reused] (!absFails(l.Filename) && old(has(lumberjacks, absPathOf(l.Filename)))) ==> result == old(lumberjacks[absPathOf(l.Filename)])
+//@   ensures [new_file_gets_one_roller] (!absFails(l.Filename) && !old(has(lumberjacks, absPathOf(l.Filename)))) ==> (has(lumberjacks, absPathOf(l.Filename)) && result == lumberjacks[absPathOf(l.Filename)] && fresh(result))
+//@   ensures [other_files_keep_their_rollers] forallT(k, string, (absFails(l.Filename) || k != absPathOf(l.Filename)) && (!absFails(l.Filename) || k != l.Filename) ==> (has(lumberjacks, k) == old(has(lumberjacks, k)) && lumberjacks[k] == old(lumberjacks[k])))
+
 //@ unit split_host_path frames=on props=C01 filter=`vhostTrie\)\.splitHostPath$`
 //@ // "host matching ignores letter case and port": the key both Insert and Match look up is the lower-cased text before the
 //@ // first slash, with the port removed exactly when net.SplitHostPort accepts it as host:port (hostOf/hasPort below ARE
